@@ -106,6 +106,8 @@ def handle (fs : List String) : String :=
       let obs := Input.handleProgram (Input.Source.new bs cs cyc fa) ops
       if obs.isEmpty then "-" else " ".intercalate (obs.map obsTok)
     | _, _, _, _ => "bad-case"
+  | _ => "bad-case"
+
 /-! ### tomlorder: `s<tag>` | `a[x;y]` | `t{k=x;k=y}` -/
 open Xt.TomlOrder in
 partial def renderTV : TV → String
